@@ -46,6 +46,20 @@ def rule_pointer_blind(ctx):
             if x.get('kind') == 'CallExpr' and callee_name(x) in tu.funcs:
                 reach.append(callee_name(x))
     branches = {}
+    # the test may be named first: const int is_particles = (strcmp(name, "particles")==0); ... if (is_particles) {...}
+    flag_lit = {}
+    for d in (y for b_ in bodies for y in walk(b_)):
+        if d.get('kind') == 'VarDecl' and 'init' in d:
+            init = [c_ for c_ in d.get('inner', []) if c_.get('kind') not in ('FullComment',)]
+            if init and any(x.get('kind') == 'CallExpr' and callee_name(x) == 'strcmp' for x in walk(init[-1])) and render(init[-1]).replace(' ', '').rstrip(')').endswith('==0'):
+                lits = [y.get('value', '').strip('"') for y in walk(init[-1]) if y.get('kind') == 'StringLiteral']
+                if lits:
+                    flag_lit[d['name']] = lits[0]
+    for n in (y for b_ in bodies for y in walk(b_)):
+        if n.get('kind') == 'IfStmt':
+            c0 = strip(n['inner'][0], casts=True)
+            if c0.get('kind') == 'DeclRefExpr' and c0['referencedDecl'].get('name') in flag_lit:
+                branches[flag_lit[c0['referencedDecl']['name']]] = n['inner'][1]
     for n in (y for b_ in bodies for y in walk(b_)):
         if n.get('kind') == 'IfStmt':
             c = n['inner'][0]
